@@ -39,11 +39,19 @@ for _u, (_m, _ps) in VERUS_UNITS.items():
 
 # units that carry LABELLED clauses of further properties (only those clauses are charged to them; unlabelled failures of the
 # unit stay with its default properties)
-VERUS_ALSO = {"C09": ["chunk"], "C01": ["chunk"], "C14": ["misc"], "C16": ["evloop"], "C17": ["evloop"]}
+VERUS_ALSO = {"C09": ["chunk"], "C01": ["chunk"], "C14": ["misc"], "C16": ["evloop", "chunk"], "C17": ["evloop"]}
 for _p, _us in VERUS_ALSO.items():
     for _u in _us:
         if _u not in VERUS_FOR.setdefault(_p, []):
             VERUS_FOR[_p].append(_u)
+
+# (unit, function regex, message regex, properties): an unlabelled failure of this kind is ALSO charged to these properties
+CHARGE_RULES = [
+    # the body-read loop must end at end of stream: otherwise the daemon thread spins after the peer closed inside a body (C16: wait()
+    # never returns, the daemon cannot accept a new connection)
+    ("chunk", r'^recv_data$', r'decreases', ["C16"]),
+    ("chunk", r'^recv_into_iovec_all$', r'decreases', ["C16"]),
+]
 
 # Kani harnesses that serve further properties besides the one in their name
 KANI_ALSO = {
@@ -270,6 +278,10 @@ def run_verus_unit(name, prop, tier, keep=False):
     for d in vr.diags:
         labels = [x.split(":")[0] for x in re.split(r'[,\s]+', d["label"])] if d["label"] else None
         charged = (prop in labels) if labels else (prop in default_props)
+        # unlabelled obligations (termination measures, safety conditions) that also decide another property
+        for (cu, cfn, cmsg, cprops) in CHARGE_RULES:
+            if cu == name and re.search(cfn, d["fn"] or "") and re.search(cmsg, d["message"]) and prop in cprops:
+                charged = True
         marker = None
         for L in [d["line"]] + d.get("all_lines", []):
             marker = marker or extracted_marker(lines, L)
